@@ -173,6 +173,17 @@ Definition valid (c : case) : Prop :=
       res_same (bind (merge ml ms a b) (fun m => merge ml ms m c)) (bind (merge ml ms b c) (fun m => merge ml ms a m)) = true
   end.
 
+(* the hypotheses of C13_holds as a boolean: everything in [valid] is decidable from the case *)
+Definition validb (c : case) : bool :=
+  match c with
+  | CMerge _ _ a b => wf (VDict a) && wf (VDict b)
+  | CChain _ _ _ _ _ _ _ _ _ => true
+  | CHist _ _ _ _ => true
+  | CBuild _ _ _ _ _ _ _ => true
+  | CAssoc ml ms a b c =>
+      res_same (bind (merge ml ms a b) (fun m => merge ml ms m c)) (bind (merge ml ms b c) (fun m => merge ml ms a m))
+  end.
+
 (* ---------------------------------------------------------------- sx *)
 Definition sx_of_gres (r : res (dict * str)) : sx :=
   sx_of_res (fun dv => L [sx_of_dict (fst dv); B (snd dv)]) r.
@@ -309,10 +320,5 @@ Definition entry (x : sx) : sx :=
   | None => sxS "bad-case"
   | Some (c, io) =>
       let m := run_model c in
-      L [ sx_of_obs m; L (map sxS (holds c m)); L (map sxS (holds c io));
-          sxBool (match c with
-                  | CAssoc ml ms a b c' =>
-                      res_same (bind (merge ml ms a b) (fun m => merge ml ms m c')) (bind (merge ml ms b c') (fun m => merge ml ms a m))
-                  | _ => true
-                  end) ]
+      L [ sx_of_obs m; L (map sxS (holds c m)); L (map sxS (holds c io)); L []; sxBool (validb c) ]
   end.
